@@ -285,54 +285,67 @@ theorem mkdirAllRun_good {W : List Nat} (l : List Path) :
       · cases hs
 
 theorem rmContents_good {W : List Nat} (fuel : Nat) :
-    ∀ {s s' : Fs} (path : Path), GoodFs W s → rmContents fuel s path = .ok s' → GoodFs W s' := by
+    ∀ {s : Fs} (path : Path), GoodFs W s → GoodFs W (rmContents fuel s path).1 := by
   induction fuel with
-  | zero => intro s s' path h hs; simp only [rmContents, Except.ok.injEq] at hs; subst hs; exact h
+  | zero => intro s path h; exact h
   | succ f ih =>
-    intro s s' path h hs
-    simp only [rmContents] at hs
-    -- the fold keeps the invariant on its accumulator
-    have key : ∀ (names : List Nat) (acc : Except Err Fs), (∀ a, acc = .ok a → GoodFs W a) →
-        ∀ a, names.foldl (fun acc name =>
-          match acc with
-          | .error e => .error e
-          | .ok s1 =>
+    intro s path h
+    simp only [rmContents]
+    -- the fold keeps the invariant on the state component of its accumulator
+    have key : ∀ (names : List Nat) (acc : Fs × Option Err), GoodFs W acc.1 →
+        GoodFs W (names.foldl (fun acc name =>
+          match acc.2 with
+          | some _ => acc
+          | none =>
+            let s1 := acc.1
             let e := path ++ [name]
             if dirExists s1 e then
-              match rmContents f s1 e with
-              | .error er => .error er
-              | .ok s2 => rmdir s2 e
-            else if fileExists s1 e then unlink s1 e
-            else .ok s1) acc = .ok a → GoodFs W a := by
+              let r := rmContents f s1 e
+              match r.2 with
+              | some er => (r.1, some er)
+              | none =>
+                match rmdir r.1 e with
+                | .ok s2 => (s2, none)
+                | .error er => (r.1, some er)
+            else if fileExists s1 e then
+              match unlink s1 e with
+              | .ok s2 => (s2, none)
+              | .error er => (s1, some er)
+            else (s1, none)) acc).1 := by
       intro names
       induction names with
-      | nil => intro acc hacc a ha; exact hacc a ha
+      | nil => intro acc hacc; exact hacc
       | cons nm r ihn =>
-        intro acc hacc a ha
-        simp only [List.foldl_cons] at ha
-        apply ihn _ _ a ha
-        intro a1 ha1
-        split at ha1
-        · cases ha1
-        · next s1 =>
-          have g1 := hacc s1 rfl
-          split at ha1
-          · split at ha1
-            · cases ha1
-            · next s2 h2 => exact rmdir_good _ (ih _ g1 h2) ha1
-          · split at ha1
-            · exact unlink_good _ g1 ha1
-            · cases ha1; exact g1
-    exact key _ (.ok s) (fun a ha => by cases ha; exact h) s' hs
+        intro acc hacc
+        simp only [List.foldl_cons]
+        apply ihn
+        split
+        · exact hacc
+        · split
+          · have g := ih (path ++ [nm]) hacc
+            split
+            · exact g
+            · split
+              · next s2 h2 => exact rmdir_good _ g h2
+              · exact g
+          · split
+            · split
+              · next s2 h2 => exact unlink_good _ hacc h2
+              · exact hacc
+            · exact hacc
+    exact key _ (s, none) h
 
-theorem rmdirAll_good {W : List Nat} {s s' : Fs} (p : Path) (h : GoodFs W s) (hs : rmdirAll s p = .ok s') :
-    GoodFs W s' := by
-  unfold rmdirAll at hs
-  split at hs
-  · cases hs
-  · split at hs
-    · cases hs
-    · next s1 h1 => exact rmdir_good p (rmContents_good 8 p h h1) hs
+theorem rmdirAll_good {W : List Nat} {s : Fs} (p : Path) (h : GoodFs W s) : GoodFs W (rmdirAll s p).1 := by
+  unfold rmdirAll
+  split
+  · exact h
+  · have g := rmContents_good (W := W) 8 p h
+    simp only
+    split
+    · exact g
+    · split
+      · next s2 h2 => exact rmdir_good p g h2
+      · exact g
 
 theorem tornCollect_ok {W : List Nat} (syn : List Path) (b : Nat) :
     ∀ (pend : List POp) (ora : List Nat), PendOk W pend →
@@ -455,7 +468,7 @@ theorem step_good {W : List Nat} (cfg : Cfg) (st : St) (op : Op) (ora : Ora) (h 
   | mkdir p => exact ofExcept_fs h (fun s' hs => mkdir_good p h hs)
   | mkdirAll p => exact ofExcept_fs h (fun s' hs => mkdirAllRun_good _ h hs)
   | rmdir p => exact ofExcept_fs h (fun s' hs => rmdir_good p h hs)
-  | rmdirAll p => exact ofExcept_fs h (fun s' hs => rmdirAll_good p h hs)
+  | rmdirAll p => exact rmdirAll_good p h
   | unlink p => exact ofExcept_fs h (fun s' hs => unlink_good p h hs)
   | rename p q => exact ofExcept_fs h (fun s' hs => rename_good p q h hs)
   | syncDir p => exact ofExcept_fs h (fun s' hs => syncDir_good p h hs)
